@@ -228,6 +228,11 @@ func verifCheckRequest(r datatransfer.Request, e verifReqExpect) {
 	zz.Assert(verifRequestKindIs(r, e.kind), "request lands in exactly its kind")
 	zz.Assert(verifRequestKinds(r) == 1, "request is classified as exactly one kind")
 	zz.Assert(r.TransferID() == e.id, "transfer ID intact over the full uint64 range")
+	if tr, ok := r.(*TransferRequest1_1); ok {
+		// bindnode encodes by Go kind: a signed field would put IDs >= 2^63 on the wire as negative
+		// integers, which the published schema binding (unsigned) rejects
+		zz.Assert(zz.TypeName(tr.TransferId) == "uint64", "the wire struct carries the transfer ID as an unsigned 64-bit integer")
+	}
 	zz.Assert(r.IsPull() == e.pull && r.IsPaused() == e.paused, "flags intact")
 	zz.Assert(r.BaseCid() == e.base, "base CID intact")
 	sel, serr := r.Selector()
@@ -271,6 +276,9 @@ func verifCheckResponse(r datatransfer.Response, e verifRespExpect) {
 	zz.Assert(verifResponseKindIs(r, e.kind), "response lands in exactly its kind")
 	zz.Assert(verifResponseKinds(r) == 1, "response is classified as exactly one kind")
 	zz.Assert(r.TransferID() == e.id, "transfer ID intact over the full uint64 range")
+	if tr, ok := r.(*TransferResponse1_1); ok {
+		zz.Assert(zz.TypeName(tr.TransferId) == "uint64", "the wire struct carries the transfer ID as an unsigned 64-bit integer")
+	}
 	zz.Assert(r.Accepted() == e.accepted && r.IsPaused() == e.paused, "flags intact")
 	n, verr := r.VoucherResult()
 	if e.hasResult {
